@@ -1,5 +1,5 @@
 import DFV.Lemmas.Rot
-import DFV.Props.C14
+import DFV.Lemmas.C14
 /-! helper lemmas for the mesh-level invariant of C13 -/
 namespace DFV.C13
 open DFV DFV.T
@@ -31,8 +31,11 @@ theorem mkMesh_ok (r : Region) (n : List Nat) (bc : String) (subs : List (String
   · cases h
   · rename_i m0 h0
     obtain ⟨a, b, c, d⟩ := mkN_ok r n bc m0 h0
-    obtain ⟨_, _, _, _, hr, hn⟩ := DFV.C14.set_accepts m0 m subs h
-    exact ⟨hr.trans a, hn.trans b, c, d⟩
+    unfold setSubs at h
+    split at h
+    · injection h with h; subst h
+      exact ⟨a, b, c, d⟩
+    · cases h
 
 theorem nAt_pos_of_mem (m : Mesh) (hl : m.n.length = m.ndim) (h : ∀ k ∈ m.n, 0 < k) (a : Nat) (ha : a < m.ndim) :
     0 < m.nAt a := by
